@@ -257,11 +257,11 @@ func (l *sparseFileLoader) loadChunk(i int) error {
 
 	c, err := l.s.GetChunk(l.chunks[i].ID)
 	if err != nil {
-		return err
+		return notEOF(err)
 	}
 	b, err := c.Data()
 	if err != nil {
-		return err
+		return notEOF(err)
 	}
 
 	f, err := os.OpenFile(l.name, os.O_RDWR, 0666)
